@@ -190,6 +190,8 @@ def run(ctx, rep):
     rep.floor('C17.R5', 12)
     rep.assumptions += ['operands satisfy the documented preconditions (e not already in list; p and n in different rings; list values designate the last element)',
                         'frame rule and induction over operation sequences (meta-argument): operations on disjoint well-formed rings compose']
+    if si.abandoned and not rep.violations:
+        raise AnalysisBroken('C17: %d path(s) of a list operation were given up (a loop steered by an integer the abstract heap does not determine) and no other path shows a violation: undecided' % si.abandoned)
     return rep.finish(
         explanation='List-segment shape analysis: each mutator/accessor of dll.c is interpreted on abstract heaps whose summary segments stand for every length; results are compared with the sequence algebra.',
         trusted_base=['clang 14 IR + sroa', 'nsa/shape.py', 'frame rule / induction over operation sequences'])
